@@ -75,7 +75,7 @@ class NB:
         dt = X["dtype"]
         kh = d(st.one_of(st.integers(1, 3), st.integers(1, 5), st.sampled_from([1, 3])))
         kw = d(st.one_of(st.integers(1, 3), st.integers(1, 5), st.sampled_from([1, 3])))
-        if self.profile in ("cascade", "convs", "heavy") and d(st.integers(0, 3)) == 0:
+        if self.profile in ("cascade", "convs", "heavy") and d(st.integers(0, 3 if self.profile != "cascade" else 1)) == 0:
             # kernels that are clearly taller than wide or wider than tall (the two axes must not be confused anywhere between the scheduler and the registers)
             kh, kw = d(st.sampled_from([(5, 1), (7, 1), (9, 3), (1, 5), (1, 7), (3, 9), (7, 2)]))
         sh, sw = (d(st.sampled_from([1, 1, 2, 3])), d(st.sampled_from([1, 1, 2, 3]))) if force_stride is None else force_stride
